@@ -106,20 +106,27 @@ pub struct ScriptReader {
     pub lied: bool,
     pub calls_after_eof: usize,
     pub saw_eof: bool,
+    /// bytes delivered before the first 0-byte read (the stream ends there; a later read may deliver more)
+    pub eof_pos: Option<u64>,
+    /// first hard error reported after a 0-byte read (only a helper that reads on after the end meets it)
+    pub hard_after_eof: Option<ErrorKind>,
     pub buf_lens: Vec<usize>,
 }
 
 impl ScriptReader {
     pub fn new(stream: Stream, script: Script) -> Self {
-        ScriptReader { stream, script, pos: 0, step: 0, consumed: 0, first_hard: None, interrupts: 0, lied: false, calls_after_eof: 0, saw_eof: false, buf_lens: Vec::new() }
+        ScriptReader { stream, script, pos: 0, step: 0, consumed: 0, first_hard: None, interrupts: 0, lied: false, calls_after_eof: 0, saw_eof: false, eof_pos: None, hard_after_eof: None, buf_lens: Vec::new() }
     }
     fn deliver(&mut self, buf: &mut [u8], k: usize) -> usize {
         let remaining = (self.script.total - self.pos) as usize;
         let n = k.min(remaining).min(buf.len());
         self.stream.fill(self.pos, &mut buf[..n]);
         self.pos += n as u64;
-        if n == 0 {
+        if n == 0 && !buf.is_empty() {
             self.saw_eof = true;
+            if self.eof_pos.is_none() {
+                self.eof_pos = Some(self.pos);
+            }
         }
         n
     }
@@ -152,6 +159,9 @@ impl Read for ScriptReader {
                 Err(Error::new(ErrorKind::Interrupted, "scripted interruption"))
             }
             Ans::Hard(kind) => {
+                if self.saw_eof && self.hard_after_eof.is_none() {
+                    self.hard_after_eof = Some(kind);
+                }
                 if self.first_hard.is_none() {
                     self.first_hard = Some(kind);
                 }
@@ -159,6 +169,9 @@ impl Read for ScriptReader {
             }
             Ans::Eof => {
                 self.saw_eof = true;
+                if self.eof_pos.is_none() {
+                    self.eof_pos = Some(self.pos);
+                }
                 Ok(0)
             }
             Ans::MisreportPlus1 => {
